@@ -1,8 +1,13 @@
 package props
 
-import "encoding/json"
+import (
+	"encoding/json"
+	"os"
+)
 
 func jsonMarshal(v any) ([]byte, error)   { return json.Marshal(v) }
 func jsonUnmarshal(b []byte, v any) error { return json.Unmarshal(b, v) }
 
 func ptr[T any](v T) *T { return &v }
+
+func tierThorough() bool { return os.Getenv("VERIF_TIER") == "thorough" }
